@@ -1,7 +1,11 @@
 CONSTANTS
   Impl = "intended"
   Codecs = {"h264"}
+  MTUs = {128}
+  Sizes = {"s", "b"}
   MaxNals = 5
+  Openers = {FALSE}
+  Aggs = {TRUE, FALSE}
   Types264 = {1, 5, 7, 8}
   Types265 = {1}
   Emit = TRUE
